@@ -270,6 +270,17 @@ class Impl:
         elif k == "InitClear":
             _, g = op
             G[g].initializers.clear()
+        elif k == "InitPopItem":
+            G[op[1]].initializers.popitem()
+        elif k == "InitUpdate":
+            _, g, kvs = op
+            G[g].initializers.update({key: V[v] for key, v in kvs})
+        elif k == "InitSetDefault":
+            _, g, key, v = op
+            G[g].initializers.setdefault(key, V[v])
+        elif k == "InitIOr":
+            d = G[op[1]].initializers
+            d |= {V[x].name: V[x] for x in op[2]}
         # ---- ops outside the Coq model (oracle-only stream)
         elif k == "X_IOSetSlice":
             kind, g, a, b, vs = op[1:6]
@@ -551,6 +562,8 @@ def site_of(op: list, outcome: str) -> str | None:
         return "io-setitem-rejected-disowns"
     if k in ("InitSetItem", "InitAdd") and outcome == "ValueError":
         return "init-setitem-partial"
+    if k == "InitUpdate" and raised:
+        return "init-update-partial"
     if k == "VSetName" and outcome == "ValueError" and op[2] == "":
         return "rename-initializer-empty"
     if k == "GExtend" and outcome == "ValueError":
@@ -570,7 +583,9 @@ def site_of(op: list, outcome: str) -> str | None:
         return "io-setitem-rejected-disowns"
     if k == "X_InitIOr" and not raised:
         return "init-ior-untracked"
-    if k in ("X_InitUpdate", "X_InitSetDefault") and outcome == "ValueError":
+    if k == "X_InitUpdate" and raised:
+        return "init-update-partial"
+    if k == "X_InitSetDefault" and outcome == "ValueError":
         return "init-setitem-partial"
     if k == "X_MergeShapes" and raised:
         return "merge-shapes-partial"
@@ -738,7 +753,8 @@ class Gen:
                 ["NReplaceInput"] * 6 + ["NResizeInputs"] * 2 + ["NResizeOutputs"] * 3 + ["VReplaceAllUses"] * 4 + \
                 ["VSetName"] * 4 + ["IOAppend"] * 5 + ["IOExtend"] * 3 + ["IOInsert"] * 3 + ["IOPop"] * 3 + \
                 ["IORemove"] * 2 + ["IOClear"] + ["IOSetItem"] * 3 + ["IODelItem"] + ["IOIMul"] + ["IOReverse"] + ["IOSetSlice"] * 3 + ["IODelSlice"] * 2 + \
-                ["InitSetItem"] * 4 + ["InitDelItem"] + ["InitPop"] * 2 + ["InitAdd"] * 3 + ["InitClear"]
+                ["InitSetItem"] * 4 + ["InitDelItem"] + ["InitPop"] * 2 + ["InitAdd"] * 3 + ["InitClear"] + \
+                ["InitPopItem"] + ["InitUpdate"] * 3 + ["InitSetDefault"] * 2 + ["InitIOr"]
         k = rng.choice(kinds)
         kind = rng.choice(["KIn", "KOut"])
         if k == "NewValue":
@@ -1011,6 +1027,49 @@ class Gen:
                 else:
                     key = ""
                 return ["InitSetItem", g, key, v]
+            if k == "InitPopItem":
+                return ["InitPopItem", g]
+            if k == "InitIOr":
+                named = self._vals(lambda v: bool(v.name))
+                return ["InitIOr", g, rng.sample(named, min(len(named), rng.choice([0, 1, 2])))]
+            if k in ("InitUpdate", "InitSetDefault"):
+                okv = self._vals(lambda v: (v._graph is None or v._graph is G) and v.producer() is None)  # noqa: SLF001
+                badv = self._vals(lambda v: not ((v._graph is None or v._graph is G) and v.producer() is None))  # noqa: SLF001
+                if k == "InitSetDefault":
+                    pool = (badv if (malformed and badv) else okv)
+                    if not pool:
+                        return None
+                    v = rng.choice(pool)
+                    key = rng.choice(keys) if (keys and rng.random() < 0.4) else (V[v].name if V[v].name else rng.choice(KEYS[1:]))
+                    return ["InitSetDefault", g, key or "u1", v]
+                if not okv:
+                    return None
+                chosen = list(dict.fromkeys(rng.choice(okv) for _ in range(rng.choice([0, 1, 2, 2, 3]))))
+                kvs, used = [], set()
+                for v in chosen:
+                    key = V[v].name if V[v].name else rng.choice(KEYS[1:])
+                    if key in used:
+                        continue
+                    used.add(key)
+                    kvs.append([key, v])
+                if malformed and kvs:
+                    r = rng.random()
+                    at = rng.randrange(0, len(kvs) + 1)
+                    if r < 0.4 and badv:
+                        v = rng.choice(badv)
+                        key = V[v].name if V[v].name else "u3"
+                        if key not in used:
+                            kvs.insert(at, [key, v])                  # offending entry at every position
+                    elif r < 0.6:
+                        kvs.insert(at, [None, rng.choice(okv)])       # None key -> TypeError
+                    elif r < 0.8:
+                        v = kvs[0][1]
+                        if "u9" not in used:
+                            kvs.insert(rng.randrange(1, len(kvs) + 1), ["u9", v])   # the same value under a second key
+                    else:
+                        if "" not in used:
+                            kvs.insert(at, ["", rng.choice(okv)])
+                return ["InitUpdate", g, kvs]
             if k in ("InitDelItem", "InitPop"):
                 key = rng.choice(keys) if (keys and not malformed) else rng.choice(KEYS)
                 return [k, g, key]
@@ -1095,6 +1154,14 @@ def op_term(op: list) -> str:  # noqa: C901, PLR0911, PLR0912
         return f"InitAdd {cnat(op[1])} {cnat(op[2])}"
     if k == "InitClear":
         return f"InitClear {cnat(op[1])}"
+    if k == "InitPopItem":
+        return f"InitPopItem {cnat(op[1])}"
+    if k == "InitUpdate":
+        return f"InitUpdate {cnat(op[1])} " + clist(f"({coname(key)}, {cnat(v)})" for key, v in op[2])
+    if k == "InitSetDefault":
+        return f"InitSetDefault {cnat(op[1])} {cname(op[2])} {cnat(op[3])}"
+    if k == "InitIOr":
+        return f"InitIOr {cnat(op[1])}"
     raise ValueError(f"op outside the model: {k}")
 
 
@@ -1166,7 +1233,8 @@ def all_container_histories(max_len: int):
                   ["IOSetSlice", kind, 0, 1, 1, [1, 2]], ["IODelSlice", kind, 0, 0, 1], ["IODelSlice", kind, 0, 0, 5]]
     alpha += [["InitSetItem", 0, "u3", 1], ["InitSetItem", 0, "u0", 0], ["InitSetItem", 0, "u1", 4],
               ["InitSetItem", 0, "u9", 3], ["InitAdd", 0, 0], ["InitAdd", 0, 1], ["InitPop", 0, "u0"],
-              ["InitDelItem", 0, "u3"], ["InitClear", 0], ["VSetName", 0, "u3"], ["VSetName", 0, ""],
+              ["InitDelItem", 0, "u3"], ["InitClear", 0], ["InitPopItem", 0], ["InitSetDefault", 0, "u0", 0],
+              ["InitSetDefault", 0, "u0", 1], ["InitUpdate", 0, [["u0", 0], ["u1", 4]]], ["InitUpdate", 0, [["u0", 0], ["u7", 1]]], ["VSetName", 0, "u3"], ["VSetName", 0, ""],
               ["VSetName", 1, "u0"], ["VSetName", 0, None]]
     for ln in range(1, max_len + 1):
         for combo in itertools.product(alpha, repeat=ln):
@@ -1194,7 +1262,7 @@ def gen_oracle_only(rng, length: int) -> list[dict]:
             ok = g._ok_for(kind, gi)  # noqa: SLF001
             bad = g._bad_for(kind, gi)  # noqa: SLF001
             named_ok = [v for v in g._vals(lambda v: (v._graph is None or v._graph is G) and v.producer() is None and v.name)]  # noqa: SLF001
-            c = rng.choice(["setslice", "delslice", "sort", "popitem", "update", "setdefault", "ior", "gsort",
+            c = rng.choice(["setslice", "delslice", "sort", "ior", "gsort",
                             "conv_rau", "conv_rename", "conv_rnv", "register"])
             if c == "setslice" and ok:
                 a = rng.randrange(len(lst) + 1)
@@ -1318,11 +1386,11 @@ def run_check(ck, which: str) -> None:  # noqa: C901, PLR0912, PLR0915
                                           "NAppend", "NPrepend", "GRemove", "NReplaceInput", "NResizeInputs", "NResizeOutputs",
                                           "VReplaceAllUses", "VSetName", "IOAppend", "IOExtend", "IOInsert", "IOPop", "IORemove",
                                           "IOClear", "IOSetItem", "IODelItem", "IOSetSlice (plain)", "IODelSlice (plain)", "IOIMul", "IOReverse", "InitSetItem", "InitDelItem",
-                                          "InitPop", "InitAdd", "InitClear", "Function forwards (routed through Function objects)"})
+                                          "InitPop", "InitAdd", "InitClear", "InitPopItem", "InitUpdate", "InitSetDefault", "InitIOr", "Function forwards (routed through Function objects)"})
     ck.coverage["multi_graph_stream"] = ("nested graphs (2-8 permuted If-like bodies, one cyclic scope) + Graph.sort on top/nested "
                                          "graphs; rename_values / replace_all_uses_with spanning >= 2 graphs with the invalid "
                                          "element in a later graph")
-    ck.coverage["ops_oracle_only"] = ["IOSetSlice/IODelSlice with step or negative bounds", "IOSort", "VSetName to a non-str / unencodable name", "Value.merge_shapes", "InitPopItem", "InitUpdate", "InitSetDefault", "InitIOr",
+    ck.coverage["ops_oracle_only"] = ["IOSetSlice/IODelSlice with step or negative bounds", "IOSort", "VSetName to a non-str / unencodable name", "Value.merge_shapes", "InitIOr written on the attribute",
                                       "GSort", "GRegisterInitializer", "ConvReplaceAllUses", "ConvRenameValues",
                                       "ConvReplaceNodesAndValues"]
     ck.prove()
@@ -1698,7 +1766,7 @@ def gen_rejections(rng) -> list[list]:
     free = [b.node([o1])[0] for _ in range(3)]                   # graph-less, unnamed, outputs unnamed
     lone = b.node([])[0]
     shape = rng.choice(["insert-ref", "insert-ref", "insert-foreign", "extend-foreign", "io-extend", "io-insert", "io-setitem", "io-setslice", "io-returning", "io-returning",
-                        "rau", "rau", "rename", "rename", "init-set", "remove-safe", "resize-outputs"])
+                        "rau", "rau", "rename", "rename", "init-set", "init-update", "init-update", "remove-safe", "resize-outputs"])
     k = rng.randrange(1, 4)
     if shape == "insert-ref":
         op = [rng.choice(["GInsertBefore", "GInsertAfter"]), g0, rng.choice([m0, lone]), free[:k], {}]
@@ -1748,6 +1816,12 @@ def gen_rejections(rng) -> list[list]:
     elif shape == "init-set":
         v = rng.choice([o2, f, p0])
         op = rng.choice([["InitSetItem", g0, "u7", v], ["InitSetItem", g0, "u1", v], ["InitAdd", g0, v]])
+    elif shape == "init-update":
+        okv = [val(f"u{20 + i}", rng.random() < 0.5) for i in range(k)]
+        kvs = [[f"u{20 + i}", v] for i, v in enumerate(okv)]
+        badk = rng.choice([["u3", f], ["u8", o2], [None, val(None)], ["", val(None)], ["u9", okv[0]]])
+        kvs.insert(rng.randrange(1, len(kvs) + 1), badk)              # position >= 1: earlier entries are acceptable
+        op = ["InitUpdate", g0, kvs]
     elif shape == "remove-safe":
         ns = [n2, n1][:k] + [n0]                                     # n0's output is a graph output / still consumed
         rng.shuffle(ns)
